@@ -189,6 +189,32 @@ def run(ctx, rep):
                    "`%s` is reachable from a peer message without a dominating configuration guard that defaults to False "
                    "(guards seen: %s)" % (A.call_name(c), guard_keys), ctx.loc(c))
     rep.floor("R07.4", "dangerous sinks reachable from _dispatch", n_sinks, 2)
+    # proxy-side sinks: the method a proxy class generates for a name the peer advertises must be a plain forwarder for every
+    # name the *default* policy lets the peer invoke on such a proxy; `_make_method` builds an unpickling stub for one name
+    from .. import miniinterp as MIs
+    fmm = ctx.func("rpyc.core.netref._make_method")
+    safe = defaults.get("safe_attrs") or set()
+    risky = []
+    probed = 0
+    try:
+        for nm in sorted(safe) + ["__array__", "__call__", "plain_name"]:
+            fo = MIs.call_function(fmm.node, [nm, "<doc>"])
+            if not isinstance(fo, MIs.FuncObj):
+                continue
+            probed += 1
+            sinks_ = [A.call_name(c) for c in ast.walk(fo.node) if isinstance(c, ast.Call) and is_dangerous(A.call_name(c))]
+            if sinks_ and nm in safe:
+                risky.append((nm, sinks_))
+        rep.floor("R07.4", "generated proxy methods inspected", probed, 20)
+        rep.ob("R07.4", "no name on the default safe list makes a proxy run a dangerous sink on data fetched from the peer", not risky,
+               "%d generated methods are plain forwarders; the unpickling stub exists only for a name outside safe_attrs" % probed
+               if not risky else
+               "DEFAULT_CONFIG['safe_attrs'] contains %r, for which netref._make_method generates a stub calling %s on bytes obtained from "
+               "the peer: a hostile peer that advertises the method and gets the victim to call it (HANDLE_CALLATTR on a proxy of the "
+               "peer's own object) makes a default-configured process unpickle attacker-chosen data although allow_pickle is False"
+               % (risky[0][0], risky[0][1]), pm.relpath, kind="table")
+    except (AnalysisError, MIs.Raised) as e_:
+        rep.undecided("R07.4", "the methods netref._make_method generates", str(e_))
     for k in ("allow_pickle", "import_custom_exceptions", "instantiate_custom_exceptions", "allow_all_attrs",
               "allow_public_attrs", "allow_setattr", "allow_delattr"):
         rep.ob("R07.4", "DEFAULT_CONFIG[%r] is False" % k, defaults.get(k) is False,
